@@ -131,7 +131,11 @@ def run_history(h):
                     a = w.is_available(prof).to(EventTime.Unit.US).time
                     if a != -1:
                         ld.append([mid, a])
-                ws.append({"wid": worker_ix[w.id], "res": vec, "loaded": ld,
+                pa = []
+                for mid, prof in profiles.items():
+                    if prof in w.resources._current_allocations:
+                        pa.append([mid, [[int(r.name[1:]), rid_back(r.id), q] for r, q in w.resources._current_allocations[prof]]])
+                ws.append({"wid": worker_ix[w.id], "res": vec, "loaded": ld, "palloc": pa,
                            "placed": [tid_of[t.id] for t in w.get_placed_tasks() if t.id in tid_of]})
             out.append({"pid": pool_ix[wp.id], "workers": ws})
         return out
